@@ -44,7 +44,9 @@ RULES = {
     "C17": "one case = one scripted job whose consumer replicas' observed arrivals were replayed through the reference frontier model; distinct = "
            "hash of (script, layout, start kind, connection, batch); non-trivial = the frontier rose at least once.",
     "C18": "one case = one latency scenario (pipeline depth 1-4, connection kinds, adaptive or fixed batching, batch size, max delay 2-50 ms, bursts "
-           "smaller than the batch, pauses, layout); every case is non-trivial; distinct = hash of the scenario.",
+           "smaller than the batch, pauses, layout; connections: shuffle, group_by, replication change, route()+merge, split()+merge); "
+           "or one (generated program or loop shape, batch mode) run out of the seven batch modes each program is executed under (result compared with the "
+           "batch-independent sequential reference; a certified non-return is a violation); every case is non-trivial; distinct = hash of the scenario.",
     "C19": "one case = one (catalogue program, configuration) pair evaluated once per host_id, plus sampled real executions compared with the dump; "
            "every case is non-trivial; distinct = hash of (program, layout).",
     "C20": "one case = one crash point (program, layout, batch, operator, replica, element position) enumerated from the element counts of a clean run "
